@@ -56,6 +56,7 @@ def coerced_before(fn, name, use, typ):
 def check(ctx):
     repo = ctx.repo
     from . import generic
+    generic.memo_projection(ctx, ("dataiter.list_of_dicts",), "select / rename / modify change only the named keys of each item, in the item's own key order")
     generic.wrapper_must_call(ctx, [f for f in generic.module_functions(repo, "dataiter.deco")],
                               "append / extend / insert / + return the receiver's items followed by the argument's")
     for r, t in (("SIB-12", "filter/filter_out: same extraction, complementary tests, single pass"),
@@ -203,6 +204,16 @@ def check(ctx):
            "every path through insert delivers the new item (as list.insert does for any index)" if p is None else
            "there is a path through insert on which the item is never yielded (e.g. the loop never meets i == index: "
            "index >= len, negative index, or an empty list): the item is silently dropped -- " + " -> ".join(map(repr, p)),
+           clause="insert produces the same item sequence as list.insert")
+    # where the item goes is list.insert's decision: the index is handed to it as given (Python clamps any integer itself;
+    # re-deriving that -- `index += len(self)` -- is wrong for index < -len)
+    ipar = ins.params[1]
+    rebinds = [n for n in body_nodes(ins.node) if (isinstance(n, ast.AugAssign) and isinstance(n.target, ast.Name) and n.target.id == ipar)
+               or (isinstance(n, ast.Assign) and any(isinstance(t, ast.Name) and t.id == ipar for t in n.targets))]
+    ctx.ob("MPT-4", ins, f"{ipar} reaches list.insert as given", rebinds[0] if rebinds else ins.node, not rebinds,
+           "the index is not adjusted before list.insert interprets it" if not rebinds else
+           f"{norm(rebinds[0])} adjusts the index before it is used: list.insert already accepts every integer (indices below -len "
+           f"insert at the front); after the adjustment an index in (-2*len, -len) lands near the end instead",
            clause="insert produces the same item sequence as list.insert")
     # ------------------------------------------------------------- EFF-asis
     for name, pname in (("append", None), ("insert", None), ("__setitem__", None)):
